@@ -57,6 +57,24 @@ def own_status_paths(storage: Any, key: str) -> list[tuple]:
     return out
 
 
+def touch_targets(storage: Any, body: Any) -> tuple[set[str], list[tuple]]:
+    """What a touch may write: the touch key(s) and the marker (annotations), the touch field (status)."""
+    from kopf._cogs.configs import progress
+    ann: set[str] = set()
+    sp: list[tuple] = []
+    if isinstance(storage, progress.AnnotationsProgressStorage):
+        ann |= set(storage.make_keys(storage.touch_key, body=body))
+        ann.add(f'{storage.prefix}/kopf-managed')
+    elif isinstance(storage, progress.StatusProgressStorage):
+        sp.append(tuple(storage.touch_field))
+    elif isinstance(storage, progress.MultiProgressStorage):
+        for s in storage.storages:
+            a, b = touch_targets(s, body)
+            ann |= a
+            sp += b
+    return ann, sp
+
+
 def strip_own(body: dict, ann_keys: set[str], status_paths: list[tuple]) -> dict:
     from kopf._cogs.structs import dicts
     b = copy.deepcopy(body)
@@ -315,6 +333,14 @@ def run(ctx: fw.Ctx) -> int:
         D['touch'].append(fw.Case(f'res_eqb jeqb (ptouch {dg} {sc} {canon.cj(stored_body)} (JObj []) {canon.cj(tv)}) {exp}',
                                   {**data, 'body': stored_body, 'value': tv, 'patch_out': tp_out},
                                   diag=f'ptouch {dg} {sc} {canon.cj(stored_body)} (JObj []) {canon.cj(tv)}'))
+
+        if kind == 'ok':   # monitor: the touch writes its own key(s) and the marker only (C16_isolation_touch)
+            tak, tsp = touch_targets(storage, bodies.Body(stored_body))
+            touched = canon.merge7386(stored_body, tp_out)
+            if strip_own(touched, tak, tsp) != strip_own(stored_body, tak, tsp):
+                ctx.fail('touch disturbed data other than its own dummy', {**data, 'body': stored_body, 'value': tv},
+                         observed=strip_own(touched, tak, tsp), expected=strip_own(stored_body, tak, tsp), sig='isolation')
+            ctx.count('touch_wrote', 'yes' if tp_out else 'no')
 
         # ---------- clear (used on essences; here on whole bodies, which is a superset) ----------
         ess = copy.deepcopy(stored_body)
